@@ -120,9 +120,10 @@ def forward_filtering_backward_sampling(
         obs = x
 
         def t_branch(prev, obs):
+            # transition_n[i, j] = log p(x_t = j | x_{t-1} = i): sum over the previous state i
             alpha = jax.scipy.special.logsumexp(
-                prev + transition_n,
-                axis=-1,
+                prev.reshape(-1, 1) + transition_n,
+                axis=0,
             )
             alpha = obs_n + alpha.reshape(-1, 1)
             alpha = alpha[:, obs]
